@@ -24,18 +24,19 @@ Proof.
   destruct d; try congruence; cbn [NilEmpty.string_of_uint] in *; unfold int_token; exact A.
 Qed.
 
+Lemma nilzero_nonnil : forall d, d <> Nil -> NilZero.string_of_uint d = NilEmpty.string_of_uint d.
+Proof. intros d H. destruct d; try reflexivity. congruence. Qed.
+
 Lemma int_token_z : forall z, int_token (z_to_string z) = true.
 Proof.
   intros z. unfold z_to_string. destruct z as [|p|p]; cbn [Z.to_int NilZero.string_of_int].
   - reflexivity.
-  - pose proof (Unsigned.to_uint_nonnil p) as N. unfold NilZero.string_of_uint.
-    destruct (Pos.to_uint p) eqn:E; try congruence; rewrite <- E; apply int_token_uint; exact N.
-  - pose proof (Unsigned.to_uint_nonnil p) as N. unfold NilZero.string_of_uint.
-    assert (X : int_token (String "-" (NilEmpty.string_of_uint (Pos.to_uint p))) = true).
-    { cbn [int_token]. rewrite all_digits_uint, andb_true_r.
-      destruct (String.eqb_spec (NilEmpty.string_of_uint (Pos.to_uint p)) ""); [|reflexivity].
-      exfalso. eapply uint_string_nonempty; eassumption. }
-    destruct (Pos.to_uint p) eqn:E; try congruence; exact X.
+  - pose proof (Unsigned.to_uint_nonnil p) as N. rewrite nilzero_nonnil by exact N.
+    apply int_token_uint; exact N.
+  - pose proof (Unsigned.to_uint_nonnil p) as N. rewrite nilzero_nonnil by exact N.
+    cbn [int_token]. rewrite all_digits_uint, andb_true_r.
+    destruct (String.eqb_spec (NilEmpty.string_of_uint (Pos.to_uint p)) ""); [|reflexivity].
+    exfalso. eapply uint_string_nonempty; eassumption.
 Qed.
 
 (* the decimal printer and reader used for int tokens are inverse *)
@@ -160,4 +161,302 @@ Definition val_stable (g : gv) : Prop := json_stable (gv_json g).
 Lemma val_stable_fix : forall g, val_stable g -> gv_json (gv_of_json (gv_json g)) = gv_json g.
 Proof. intros g H. apply gv_json_of_json. exact H. Qed.
 
-Print Assumptions gv_json_of_json.
+(** ------------------------------------------------------------------ *)
+(** * 3. Generic tools *)
+
+Lemma bind_ret_l : forall {T U} (x : T) (f : T -> res U), bind (Ok x 0) f = f x.
+Proof. intros. unfold bind. destruct (f x); reflexivity. Qed.
+
+Lemma mapM_ok0 : forall {T U} (f : T -> res U) (g : T -> U) l,
+  (forall x, In x l -> f x = Ok (g x) 0) -> mapM f l = Ok (map g l) 0.
+Proof.
+  intros T U f g l. induction l as [|x r IH]; intros H; [reflexivity|].
+  cbn [mapM map]. rewrite (H x) by (left; reflexivity). rewrite bind_ret_l.
+  rewrite IH by (intros y Hy; apply H; right; exact Hy). rewrite bind_ret_l. reflexivity.
+Qed.
+
+Lemma mapM_strs : forall l, mapM unm_string (map gv_of_json (map JStr l)) = Ok l 0.
+Proof.
+  intros l. rewrite map_map. cbn [gv_of_json].
+  rewrite (mapM_ok0 unm_string (fun g => match g with GStr s => s | _ => "" end)).
+  - rewrite map_map. cbn. rewrite map_id. reflexivity.
+  - intros x Hx. apply in_map_iff in Hx. destruct Hx as (s & <- & _). reflexivity.
+Qed.
+
+Lemma unm_strings_jstrs : forall l, unm_strings (gv_of_json (jstrs l)) = Ok (Some l) 0.
+Proof.
+  intros l. unfold jstrs. rewrite gv_of_json_arr. cbn [unm_strings]. rewrite mapM_strs, bind_ret_l. reflexivity.
+Qed.
+
+Lemma keys_gmap : forall l, map fst (gmap l) = map fst l.
+Proof. intros. unfold gmap. apply map_fst_map. Qed.
+Lemma keys_jmap : forall l, map fst (jmap l) = map fst l.
+Proof. intros. unfold jmap. apply map_fst_map. Qed.
+
+Lemma aget_gmap : forall k l, aget k (gmap l) = option_map gv_of_json (aget k l).
+Proof. intros. unfold gmap. apply aget_map. Qed.
+
+Lemma aget_filter : forall {T} (p : string -> bool) k (l : list (string * T)),
+  aget k (filter (fun kv => p (fst kv)) l) = if p k then aget k l else None.
+Proof.
+  intros T p k l. induction l as [|[k0 v0] r IH]; cbn [filter aget fst].
+  - destruct (p k); reflexivity.
+  - destruct (p k0) eqn:P0; cbn [aget].
+    + destruct (String.eqb_spec k k0) as [E|N]; [subst; rewrite P0; reflexivity|exact IH].
+    + destruct (String.eqb_spec k k0) as [E|N]; [subst; rewrite P0 in *; exact IH|exact IH].
+Qed.
+
+Lemma NoDup_fst_NoDup : forall {T} (l : list (string * T)), NoDup (map fst l) -> NoDup l.
+Proof.
+  intros T l. induction l as [|x r IH]; intros H; [constructor|].
+  cbn [map] in H. inversion H; subst. constructor; [|apply IH; assumption].
+  intros I. apply H2. apply in_map. exact I.
+Qed.
+
+(* two key-sorted association lists with distinct keys and the same lookups are equal *)
+Lemma alist_sorted_ext : forall {T} (l1 l2 : list (string * T)),
+  StronglySorted sle (map fst l1) -> StronglySorted sle (map fst l2) ->
+  NoDup (map fst l1) -> NoDup (map fst l2) ->
+  (forall k, aget k l1 = aget k l2) -> l1 = l2.
+Proof.
+  intros T l1 l2 S1 S2 N1 N2 H. apply sorted_perm_unique; try assumption.
+  apply NoDup_Permutation; try (apply NoDup_fst_NoDup; assumption).
+  intros [k v]. split; intros I.
+  - apply aget_some_in. rewrite <- H. apply in_aget; assumption.
+  - apply aget_some_in. rewrite H. apply in_aget; assumption.
+Qed.
+
+Lemma inline_friendly_members : forall o r, inline_friendly o r = JObj (members (inline_friendly o r)).
+Proof. reflexivity. Qed.
+
+Definition vals_stable (rem : list (string * gv)) : Prop := Forall (fun kv => val_stable (snd kv)) rem.
+
+Lemma vals_stable_get : forall rem k v, vals_stable rem -> aget k rem = Some v -> val_stable v.
+Proof.
+  intros rem k v H G. apply aget_some_in in G. unfold vals_stable in H. rewrite Forall_forall in H.
+  apply (H (k, v) G).
+Qed.
+
+(* the re-read object: lookups *)
+Lemma reobj_lookup : forall outline rem k,
+  NoDup (map fst outline) -> NoDup (map fst rem) ->
+  aget k (gmap (members (inline_friendly outline rem))) =
+    match aget k outline with
+    | Some j => Some (gv_of_json j)
+    | None => option_map (fun v => gv_of_json (gv_json v)) (aget k rem)
+    end.
+Proof.
+  intros outline rem k No Nr. rewrite aget_gmap, inline_friendly_lookup by assumption.
+  destruct (aget k outline); [reflexivity|]. destruct (aget k rem); reflexivity.
+Qed.
+
+Lemma reobj_keys : forall outline rem k,
+  In k (map fst (gmap (members (inline_friendly outline rem)))) <-> In k (map fst outline) \/ In k (map fst rem).
+Proof. intros. rewrite keys_gmap. apply inline_friendly_keys. Qed.
+
+(* the re-read object, filtered by a key predicate that keeps every key of the
+   inline map, re-marshals with the same outline fields to the same object *)
+Lemma reobj_fix : forall outline rem (q : string -> bool),
+  NoDup (map fst outline) -> NoDup (map fst rem) -> vals_stable rem ->
+  (forall k, q k = false -> ~ In k (map fst rem)) ->
+  inline_friendly outline (filter (fun kv => q (fst kv)) (gmap (members (inline_friendly outline rem))))
+  = inline_friendly outline rem.
+Proof.
+  intros outline rem q No Nr Vs Hq.
+  set (rem' := filter (fun kv => q (fst kv)) (gmap (members (inline_friendly outline rem)))).
+  assert (Nr' : NoDup (map fst rem')).
+  { unfold rem'. apply nodup_map_filter. rewrite keys_gmap. apply inline_friendly_nodup. }
+  rewrite (inline_friendly_members outline rem'), (inline_friendly_members outline rem). f_equal.
+  apply alist_sorted_ext; try apply inline_friendly_sorted; try apply inline_friendly_nodup.
+  intros k. rewrite !inline_friendly_lookup by assumption.
+  destruct (aget k outline) eqn:Eo; [reflexivity|].
+  unfold rem'. rewrite aget_filter. destruct (q k) eqn:Q.
+  - rewrite reobj_lookup, Eo by assumption. destruct (aget k rem) eqn:Er; cbn [option_map]; [|reflexivity].
+    f_equal. apply val_stable_fix. eapply vals_stable_get; eassumption.
+  - cbn [option_map]. rewrite aget_none; [reflexivity|]. apply Hq. exact Q.
+Qed.
+
+(** optional outline entries *)
+Definition compact (ol : list (string * option json)) : list (string * json) :=
+  flat_map (fun e => match snd e with Some j => [(fst e, j)] | None => [] end) ol.
+
+Lemma compact_keys : forall ol k, In k (map fst (compact ol)) -> In k (map fst ol).
+Proof.
+  induction ol as [|[k0 o] r IH]; intros k H; [destruct H|].
+  unfold compact in H. cbn [flat_map fst snd] in H. rewrite map_app, in_app_iff in H.
+  cbn [map fst]. destruct H as [H|H].
+  - destruct o; cbn in H; [destruct H as [<-|[]]; left; reflexivity|destruct H].
+  - right. apply IH. exact H.
+Qed.
+
+Lemma compact_nodup : forall ol, NoDup (map fst ol) -> NoDup (map fst (compact ol)).
+Proof.
+  induction ol as [|[k0 o] r IH]; intros H; [constructor|].
+  cbn [map fst] in H. inversion H; subst.
+  unfold compact. cbn [flat_map fst snd]. fold (compact r). destruct o; cbn [app map fst].
+  - constructor; [|apply IH; assumption]. intros I. apply compact_keys in I. contradiction.
+  - apply IH; assumption.
+Qed.
+
+Lemma aget_compact : forall k ol, NoDup (map fst ol) ->
+  aget k (compact ol) = match aget k ol with Some o => o | None => None end.
+Proof.
+  intros k. induction ol as [|[k0 o] r IH]; intros H; [reflexivity|].
+  cbn [map fst] in H. inversion H; subst.
+  destruct o as [j|].
+  - change (compact ((k0, Some j) :: r)) with ((k0, j) :: compact r). cbn [aget].
+    destruct (String.eqb_spec k k0) as [E|N]; [reflexivity|apply IH; assumption].
+  - change (compact ((k0, None) :: r)) with (compact r). cbn [aget].
+    destruct (String.eqb_spec k k0) as [E|N]; [|apply IH; assumption].
+    subst k0. apply aget_none. intros I. apply compact_keys in I. contradiction.
+Qed.
+
+Lemma reobj_get : forall ol rem k,
+  NoDup (map fst ol) -> NoDup (map fst rem) ->
+  aget k (gmap (members (inline_friendly (compact ol) rem))) =
+    match aget k ol with
+    | Some (Some j) => Some (gv_of_json j)
+    | _ => option_map (fun v => gv_of_json (gv_json v)) (aget k rem)
+    end.
+Proof.
+  intros ol rem k No Nr. rewrite reobj_lookup by (try apply compact_nodup; assumption).
+  rewrite aget_compact by assumption. destruct (aget k ol) as [[j|]|]; reflexivity.
+Qed.
+
+(** struct descriptors: which keys a named field answers to *)
+Fixpoint first_key (ks : list string) (m : list (string * gv)) : option gv :=
+  match ks with
+  | [] => None
+  | k :: r => match aget k m with Some v => Some v | None => first_key r m end
+  end.
+
+Fixpoint named_keys (name : string) (fields : list field_row) : option (list string) :=
+  match fields with
+  | [] => None
+  | r :: rest =>
+      match classify r with
+      | FKeyed => if String.eqb (row_name r) name
+                  then Some (primary_key r :: filter nonempty (split_comma (row_aliases r)))
+                  else named_keys name rest
+      | _ => named_keys name rest
+      end
+  end.
+
+Lemma first_alias_first_key : forall al m, option_map snd (first_alias al m) = first_key (filter nonempty al) m.
+Proof.
+  induction al as [|a r IH]; intros m; [reflexivity|].
+  cbn [first_alias filter]. unfold nonempty at 1. destruct (String.eqb a ""); cbn [negb]; [apply IH|].
+  cbn [first_key]. destruct (aget a m); [reflexivity|apply IH].
+Qed.
+
+Lemma field_lookup_first_key : forall r m,
+  option_map snd (field_lookup r m) = first_key (primary_key r :: filter nonempty (split_comma (row_aliases r))) m.
+Proof.
+  intros r m. unfold field_lookup. cbn [first_key].
+  destruct (aget (primary_key r) m); [reflexivity|]. apply first_alias_first_key.
+Qed.
+
+Lemma named_lookup_none : forall name fields m,
+  ~ In name (map row_name (keyed fields)) -> named_lookup name fields m = None.
+Proof.
+  intros name fields m. induction fields as [|r rest IH]; intros H; [reflexivity|].
+  cbn [named_lookup]. destruct (classify r) eqn:C.
+  - apply IH. rewrite keyed_cons_other in H by congruence. exact H.
+  - apply IH. rewrite keyed_cons_other in H by congruence. exact H.
+  - rewrite (keyed_cons_keyed _ _ C) in H. cbn [map In] in H.
+    destruct (String.eqb_spec (row_name r) name) as [E|N]; [exfalso; apply H; left; exact E|].
+    destruct (field_lookup r m) as [[k v]|]; apply IH; intros I; apply H; right; exact I.
+Qed.
+
+Lemma field_keys_spec : forall name fields ks m,
+  NoDup (map row_name (keyed fields)) -> named_keys name fields = Some ks ->
+  field name (partition_keys fields m) = first_key ks m.
+Proof.
+  intros name fields ks m. rewrite field_named.
+  induction fields as [|r rest IH]; intros N H; [discriminate H|].
+  cbn [named_keys named_lookup] in *. destruct (classify r) eqn:C.
+  - apply IH; [rewrite keyed_cons_other in N by congruence; exact N|exact H].
+  - apply IH; [rewrite keyed_cons_other in N by congruence; exact N|exact H].
+  - rewrite (keyed_cons_keyed _ _ C) in N. cbn [map] in N. inversion N as [|? ? Hn Hr]; subst.
+    destruct (String.eqb_spec (row_name r) name) as [E|Ne].
+    + inversion H; subst ks. rewrite <- field_lookup_first_key.
+      destruct (field_lookup r m) as [[k v]|]; [reflexivity|].
+      cbn [option_map]. apply named_lookup_none. rewrite <- E. exact Hn.
+    + destruct (field_lookup r m) as [[k v]|]; apply IH; assumption.
+Qed.
+
+Ltac fk := apply field_keys_spec; [apply nodupb_sound; vm_compute; reflexivity|vm_compute; reflexivity].
+
+(** consumed keys: primary keys, or aliases when the primary key is absent *)
+Definition ktab (fields : list field_row) : list (string * list string) :=
+  map (fun r => (primary_key r, filter nonempty (split_comma (row_aliases r)))) (keyed fields).
+
+Lemma consumed_ktab : forall fields m k,
+  In k (DecodeProofs.consumed (partition_keys fields m)) ->
+  exists pk al, In (pk, al) (ktab fields) /\ (k = pk \/ (aget pk m = None /\ In k al)).
+Proof.
+  intros fields m k H. unfold DecodeProofs.consumed in H. apply in_map_iff in H.
+  destruct H as ([[r k'] v] & E & Hin). cbn [fst snd] in E. subst k'.
+  apply match_rule in Hin. destruct Hin as (Hi & Hc & Hg & Hr).
+  exists (primary_key r), (filter nonempty (split_comma (row_aliases r))). split.
+  - unfold ktab. apply in_map_iff. exists r. split; [reflexivity|]. apply keyed_In. split; assumption.
+  - destruct Hr as [->|[Hn Hf]]; [left; reflexivity|right]. split; [exact Hn|].
+    eapply MarshalProofs.first_alias_in. exact Hf.
+Qed.
+
+Lemma consumed_not_in_rem : forall fields m (rem : list (string * gv)),
+  (forall pk al, In (pk, al) (ktab fields) ->
+     ~ In pk (map fst rem) /\ (forall a, In a al -> aget pk m = None -> ~ In a (map fst rem))) ->
+  forall k, negb (existsb (String.eqb k) (DecodeProofs.consumed (partition_keys fields m))) = false ->
+            ~ In k (map fst rem).
+Proof.
+  intros fields m rem H k Hk. apply negb_false_iff in Hk. apply existsb_eqb_In in Hk.
+  apply consumed_ktab in Hk. destruct Hk as (pk & al & Hin & Hc).
+  destruct (H pk al Hin) as [H1 H2]. destruct Hc as [->|[Hn Ha]]; [exact H1|]. apply H2; assumption.
+Qed.
+
+Lemma aget_leftover : forall fields m k,
+  aget k (leftover (partition_keys fields m)) =
+  if negb (existsb (String.eqb k) (DecodeProofs.consumed (partition_keys fields m))) then aget k m else None.
+Proof.
+  intros. rewrite leftover_spec.
+  apply (aget_filter (fun k => negb (existsb (String.eqb k) (DecodeProofs.consumed (partition_keys fields m))))).
+Qed.
+
+(* inline maps: distinct keys, none of the schema's primary keys, stable values *)
+Definition rem_ok (schema : list string) (rem : list (string * gv)) : Prop :=
+  NoDup (map fst rem) /\ (forall k, In k schema -> ~ In k (map fst rem)) /\ vals_stable rem.
+
+Lemma rem_ok_none : forall schema rem k, rem_ok schema rem -> In k schema -> aget k rem = None.
+Proof. intros schema rem k (_ & H & _) I. apply aget_none. apply H. exact I. Qed.
+
+Lemma opt_field_some : forall {T} name p (d : T) f v, field name p = Some v -> opt_field name p d f = f v.
+Proof. intros. unfold opt_field. rewrite H. reflexivity. Qed.
+Lemma opt_field_none : forall {T} name p (d : T) f, field name p = None -> opt_field name p d f = ret d.
+Proof. intros. unfold opt_field. rewrite H. reflexivity. Qed.
+
+(** ------------------------------------------------------------------ *)
+(** * 4. Signature *)
+
+Theorem sig_roundtrip : forall s, unm_sig (gv_of_json (mj_sig s)) = Ok (Some s) 0.
+Proof.
+  intros [a f v]. unfold mj_sig. cbn [sg_alg sg_fields sg_value].
+  rewrite gv_of_json_obj. cbn [gmap map fst snd]. cbn [unm_sig]. cbv zeta.
+  set (F := gv_of_json match f with Some l => jstrs l | None => JNull end).
+  set (m := [("algorithm", gv_of_json (JStr a)); ("signed_fields", F); ("value", gv_of_json (JStr v))]).
+  assert (E1 : field "Algorithm" (partition_keys struct_Signature m) = Some (GStr a)).
+  { rewrite (field_keys_spec "Algorithm" struct_Signature ["algorithm"]) by
+      (first [apply nodupb_sound; vm_compute; reflexivity|vm_compute; reflexivity]). reflexivity. }
+  assert (E2 : field "SignedFields" (partition_keys struct_Signature m) = Some F).
+  { rewrite (field_keys_spec "SignedFields" struct_Signature ["signed_fields"]) by
+      (first [apply nodupb_sound; vm_compute; reflexivity|vm_compute; reflexivity]). reflexivity. }
+  assert (E3 : field "Value" (partition_keys struct_Signature m) = Some (GStr v)).
+  { rewrite (field_keys_spec "Value" struct_Signature ["value"]) by
+      (first [apply nodupb_sound; vm_compute; reflexivity|vm_compute; reflexivity]). reflexivity. }
+  rewrite (opt_field_some _ _ _ _ _ E1), (opt_field_some _ _ _ _ _ E2), (opt_field_some _ _ _ _ _ E3).
+  change (unm_string (GStr a)) with (Ok a 0). change (unm_string (GStr v)) with (Ok v 0).
+  rewrite bind_ret_l.
+  assert (EF : unm_strings F = Ok f 0).
+  { unfold F. destruct f as [l|]; [apply unm_strings_jstrs|reflexivity]. }
+  rewrite EF, bind_ret_l, bind_ret_l. reflexivity.
+Qed.
